@@ -5,6 +5,9 @@ import CCVerif.Lemmas.Rename
 import CCVerif.Lemmas.RelexRun
 import CCVerif.Lemmas.WordSpec
 import CCVerif.Properties.C17
+import CCVerif.Lemmas.RenameGenFrag
+import CCVerif.Lemmas.CheckerRenamePlain
+import CCVerif.Lemmas.CheckerRenameNames
 /-!
 # C08 — renaming rewrites all and only the mentions of a name and preserves meaning
 
@@ -35,6 +38,20 @@ Text level (all texts, all maps, all filters — no size bound):
 
 Schema level (fragment model of C07): `rename_iso`, `substitute_iso`,
 `rename_capture_counterexample`, `rename_without_substitution_counterexample`.
+
+Schema level, GENERIC machine (`Model/SchemaGen.lean`, any analysis that is `Lawful` — C07 — and
+satisfies the equivariance law `Equivariance` of `Lemmas/RenameGen.lean`): `rename_iso_generic`,
+`substitute_iso_generic` (same dependency edges, report = old report with the renaming applied),
+`rename_capture_generic_counterexample`; the fragment is an instance and `rename_iso` a corollary
+(`fragment_equivariant`, `rename_iso_via_generic`).
+
+Schema level, the REAL type checker (`Model/Checker.lean`) as the analysis, definitions = parsed trees:
+`checker_equivariant` (`check (ρ Γ) (ρ e) = ρ (check Γ e)` with the exact side conditions `TreeOK`),
+`checker_analysis_equivariant`, `rename_iso_checker`, `substitute_iso_checker`, and with the renaming
+constructed: `rename_iso_checker_plain` (transposition, constituents that are not called functions, no
+assumption on spellings), `rename_iso_checker_names` (every constituent with a well-formed name,
+called functions included: block-wise transposition of the mangled radicals),
+`rename_capture_checker_counterexample`.
 -/
 namespace CCVerif.C08
 open CCVerif.Syntax CCVerif.Generated CCVerif.Lexer CCVerif.Strings CCVerif.Translate CCVerif.Translate.Spec
@@ -600,5 +617,434 @@ example : ∀ a ∈ namesOf stIso.store, ∀ b ∈ namesOf stIso.store,
   decide
 
 end SchemaLevel
+
+/-! ## schema level, GENERIC machine (`Model/SchemaGen.lean`): any lawful, equivariant analysis -/
+
+section GenericLevel
+open CCVerif.SchemaGen
+open CCVerif.Schema (lookup)
+
+/-- **rename_iso_generic.** The isomorphism clause for the generic schema machine: for EVERY
+per-constituent analysis `A` that satisfies the frame laws of C07 (`Lawful A`) and the equivariance
+law (`Q : Equivariance A`: the analysis commutes with a consistent renaming of skeleton, context and
+constituent; status kept), every well-formed state with pairwise distinct aliases, a new name that
+is free and — the proviso of the property — not mentioned anywhere as an unresolved name, and every
+admissible renaming `r` that maps the old alias to the new one and moves no other name (the new one
+excepted, which does not occur): after `SetAliasFor(u, new, substitute = true)` the schema is the old
+one up to `r` — the same dependency edges and the report with `r` applied to every entry. -/
+theorem rename_iso_generic {D I : Type} [DecidableEq D] {A : Analysis D I} (hA : Lawful A) (Q : Equivariance A)
+    {st : St D I} (h : WF A st) (hd : AliasesDistinct st) {u : Nat} {c : Cst D} (hat : st.at u = some c)
+    (new : String) (hfree : ∀ x ∈ st.store, x.alias ≠ new)
+    (hproviso : ∀ x ∈ st.store, new ∈ A.mentions x.defn → (findAliasL st.store new).isSome = true)
+    (r : Q.Ren) (hg : ∀ x ∈ st.store, Q.Good r x) (hold : Q.app r c.alias = new)
+    (hfix : ∀ n, n ≠ c.alias → n ≠ new → Q.app r n = n) :
+    (step A st (.setAlias u new true)).depEdges A = st.depEdges A ∧
+    (step A st (.setAlias u new true)).report A = (st.report A).map (fun p => (p.1, Q.renI r p.2)) := by
+  obtain ⟨hc, _⟩ := mem_of_at hat
+  have hnone : findAliasL st.store new = none := by
+    unfold findAliasL
+    rw [List.find?_eq_none.2 (fun x hx => by simpa using hfree x hx)]
+    rfl
+  have hnew : new ∉ namesOfG A st.store := by
+    intro hm
+    rcases List.mem_append.1 hm with hm | hm
+    · obtain ⟨x, hx, e⟩ := List.mem_map.1 hm
+      exact hfree x hx e
+    · obtain ⟨x, hx, e⟩ := List.mem_flatMap.1 hm
+      have := hproviso x hx e
+      rw [hnone] at this
+      cases this
+  exact setAlias_iso_gen hA Q h hd hat new (hfree c hc) r hg hold
+    (fun n hn hne => hfix n hne (fun e => hnew (e ▸ hn)))
+
+/-- **substitute_iso_generic.** `SubstitueAliases(map)` (`ResetAliases`, the simultaneous maps of merge
+and equation — swaps and chains included) on the generic machine: if the map acts on the names that
+occur in the schema (aliases and mentions) like an admissible renaming `r` — in particular
+injectively, which is the proviso — the schema afterwards is the old one up to `r`. -/
+theorem substitute_iso_generic {D I : Type} [DecidableEq D] {A : Analysis D I} (hA : Lawful A)
+    (Q : Equivariance A) {st : St D I} (h : WF A st) (m : List (String × String)) (r : Q.Ren)
+    (hg : ∀ x ∈ st.store, Q.Good r x)
+    (hagree : ∀ n ∈ namesOfG A st.store, Q.app r n = (lookup m n).getD n) :
+    (step A st (.substitute m)).depEdges A = st.depEdges A ∧
+    (step A st (.substitute m)).report A = (st.report A).map (fun p => (p.1, Q.renI r p.2)) :=
+  substitute_iso_gen hA Q h m r hg hagree
+
+/-- the renaming hypothesis of `substitute_iso_generic` contains the proviso: a map that acts like an
+admissible renaming is injective on the names of the schema -/
+theorem substitute_agree_injective {D I : Type} {A : Analysis D I} (Q : Equivariance A) {s : List (Cst D)}
+    (m : List (String × String)) (r : Q.Ren)
+    (hagree : ∀ n ∈ namesOfG A s, Q.app r n = (lookup m n).getD n) :
+    ∀ a ∈ namesOfG A s, ∀ b ∈ namesOfG A s, (lookup m a).getD a = (lookup m b).getD b → a = b := by
+  intro a ha b hb he
+  rw [← hagree a ha, ← hagree b hb] at he
+  exact Q.app_injective r he
+
+/-- the definition fragment of C07 is a lawful, equivariant analysis; every bijection of names is an
+admissible renaming and there is no side condition -/
+theorem fragment_equivariant : Lawful fragA ∧ (∀ (b : Bij) (c : Cst Schema.Def), fragEquivariance.Good b c) :=
+  ⟨fragA_lawful, fun _ _ => trivial⟩
+
+/-- **rename_iso_via_generic.** The fragment theorem `rename_iso` as a COROLLARY of the generic one:
+a well-formed state of the fragment machine is a well-formed state of the generic machine over
+`fragA` (`WF_toG`), the transposition `old ↔ new` is an admissible renaming, and on the types of the
+report — aliases of the schema, hence different from the free name `new` — it acts like `old ↦ new`. -/
+theorem rename_iso_via_generic {st : Schema.St} (h : Schema.WF st) (hd : Schema.AliasesDistinct st) {u : Nat}
+    {c : Schema.Cst} (hat : st.at u = some c) (new : String) (hfree : ∀ x ∈ st.store, x.alias ≠ new)
+    (hproviso : ∀ x ∈ st.store, new ∈ x.defn.mentions → (Schema.findAliasL st.store new).isSome = true) :
+    (Schema.step false st (.setAlias u new true)).depEdges = st.depEdges ∧
+    (Schema.step false st (.setAlias u new true)).report =
+      st.report.map (fun r => (r.1, r.2.1, r.2.2.map (ren c.alias new))) := by
+  have hwf := WF_toG h
+  have hd' : AliasesDistinct (toG st) := by
+    unfold AliasesDistinct
+    rw [toG_store, List.map_map]
+    exact hd
+  have hat' : (toG st).at u = some (cG c) := by rw [at_toG, hat]; rfl
+  have hfa : ∀ a, findAliasL (toG st).store a = Schema.findAliasL st.store a := fun a => findAlias_toG st a
+  have hgen := rename_iso_generic fragA_lawful fragEquivariance hwf hd' hat' new
+    (by
+      intro x hx
+      obtain ⟨y, hy, rfl⟩ := List.mem_map.1 hx
+      exact hfree y hy)
+    (by
+      intro x hx hm
+      obtain ⟨y, hy, rfl⟩ := List.mem_map.1 hx
+      rw [hfa]
+      exact hproviso y hy hm)
+    (Bij.swap c.alias new) (fun _ _ => trivial) (swapName_left _ _)
+    (fun n h1 h2 => swapName_other h1 h2)
+  have hstep : toG (Schema.step false st (.setAlias u new true)) = step fragA (toG st) (.setAlias u new true) :=
+    toG_step st (.setAlias u new true)
+  refine ⟨by rw [depEdges_toG, hstep, hgen.1, ← depEdges_toG], ?_⟩
+  rw [report_toG, hstep, hgen.2, report_toG, List.map_map, List.map_map]
+  apply List.map_congr_left
+  intro p hp
+  simp only [Function.comp]
+  show (p.1, (renInfo (swapName c.alias new) p.2).status, (renInfo (swapName c.alias new) p.2).ty) = _
+  simp only [renInfo]
+  congr 2
+  -- a type of the report is an alias of the schema
+  unfold St.report at hp
+  obtain ⟨x, hx, rfl⟩ := List.mem_map.1 hp
+  simp only
+  cases hty : ((toG st).infoFor fragA x.uid).ty with
+  | none => rfl
+  | some t =>
+    simp only [Option.map_some]
+    congr 1
+    rw [infoFor_toG] at hty
+    obtain ⟨y, hy, hya⟩ := typed_alias (h.sync.sound _ _ hty)
+    have htn : t ≠ new := fun e => hfree y hy (hya.trans e)
+    unfold swapName ren
+    by_cases h1 : t = c.alias
+    · simp [h1]
+    · simp [h1, htn]
+
+/-- **capture (generic machine).** On the generic machine over the fragment analysis the conclusion of
+`rename_iso_generic` fails for EVERY admissible renaming when the proviso fails: renaming `X1` to the
+free alias `X2` turns `D1 := X1 ∪ X2` (incorrect: `X2` unresolved) into `D1 := X2 ∪ X2` (verified), a
+change of status that no renaming of the entries produces. All other hypotheses hold. -/
+theorem rename_capture_generic_counterexample :
+    let st := run fragA [.insert ⟨1, "X1", .base, .empty⟩, .insert ⟨2, "D1", .term, .union ["X1", "X2"]⟩]
+    WF fragA st ∧ AliasesDistinct st ∧ (∀ x ∈ st.store, x.alias ≠ "X2") ∧
+    ¬ (∀ x ∈ st.store, "X2" ∈ fragA.mentions x.defn → (findAliasL st.store "X2").isSome = true) ∧
+    ∀ b : Bij, (step fragA st (.setAlias 1 "X2" true)).report fragA ≠
+      (st.report fragA).map (fun p => (p.1, fragEquivariance.renI b p.2)) := by
+  refine ⟨WF.run fragA_lawful ⟨trivial, trivial, trivial⟩, by decide, by decide, by decide, ?_⟩
+  intro b
+  have h1 : (step fragA (run fragA [.insert ⟨1, "X1", .base, .empty⟩, .insert ⟨2, "D1", .term, .union ["X1", "X2"]⟩])
+      (.setAlias 1 "X2" true)).report fragA =
+      [(1, { status := .verified, ty := some "X2" }), (2, { status := .verified, ty := some "X2" })] := by decide
+  have h2 : (run fragA [.insert ⟨1, "X1", .base, .empty⟩, .insert ⟨2, "D1", .term, .union ["X1", "X2"]⟩]).report fragA =
+      [(1, { status := .verified, ty := some "X1" }), (2, { status := .incorrect, ty := none })] := by decide
+  rw [h1, h2]
+  intro he
+  have := congrArg (fun l => l.map (fun p => p.2.status)) he
+  simp [fragEquivariance, renInfo] at this
+
+/-- non-vacuity of `rename_iso_generic` / `substitute_iso_generic` on the generic machine over the
+fragment: prefix aliases `X1` / `X11`, dependent terms, an unresolved mention `X9` that is not the new
+name; the transposition `X1 ↔ X2` is the renaming; for `substitute` the swap `X1 ↔ X11` -/
+example :
+    let st := run fragA [.insert ⟨1, "X1", .base, .empty⟩, .insert ⟨2, "X11", .base, .empty⟩,
+      .insert ⟨3, "D1", .term, .union ["X1", "X1"]⟩, .insert ⟨4, "D2", .term, .union ["X11", "X9"]⟩,
+      .insert ⟨5, "D3", .term, .union ["D1", "X1"]⟩]
+    WF fragA st ∧ AliasesDistinct st ∧ st.at 1 = some ⟨1, "X1", .base, .empty⟩ ∧
+    (∀ x ∈ st.store, x.alias ≠ "X2") ∧
+    (∀ x ∈ st.store, "X2" ∈ fragA.mentions x.defn → (findAliasL st.store "X2").isSome = true) ∧
+    fragEquivariance.app (Bij.swap "X1" "X2") "X1" = "X2" ∧
+    (∀ n ∈ namesOfG fragA st.store, fragEquivariance.app (Bij.swap "X1" "X11") n =
+      (lookup [("X1", "X11"), ("X11", "X1")] n).getD n) :=
+  ⟨WF.run fragA_lawful ⟨trivial, trivial, trivial, trivial, trivial, trivial⟩, by decide, by decide, by decide,
+    by decide, by decide, by decide⟩
+
+end GenericLevel
+
+/-! ## schema level, the REAL type checker (`Model/Checker.lean`) as the analysis -/
+
+section CheckerLevel
+open CCVerif.SchemaGen CCVerif.Checker CCVerif.Types
+
+/-- **checker_equivariant.** The type checker commutes with a renaming of the global names: for a
+bijection `ρ` of the global identifiers and an admissible renaming `τ` of the base names of
+typifications (a bijection that fixes `Z` and `R0` and maps radicals to radicals and non-radicals to
+non-radicals), `CheckType` of the tree with its ID_GLOBAL / ID_FUNCTION / ID_PREDICATE tokens renamed
+by `ρ` (what `TranslateRS` rewrites), in the context with its keys renamed by `ρ`, its types by `τ`
+and its trait keys by `τ`, gives the result of the original check with the typification and the
+types of the declared arguments renamed by `τ` — same outcome (accepted / rejected / the same stuck
+site), the same error log, the same ghost flag. The side conditions `TreeOK r e` are those the
+proof forces, per node: a radical token's text is fixed by `τ`; the name `fn` of a called function is
+renamed as a token and `τ (R ++ fn) = τ R ++ ρ fn` for radicals `R` (`MangleRadicals`); `τ` and `ρ`
+agree on the declared name of `X1:==`; the variable of an argument declaration keeps its name. No
+condition on the FIRST LETTER of a name is needed at this level: the checker classifies names by
+token kind, never by spelling, except for `Z`, `R0` and `IsRadical` on base names. (The kind letter
+matters one level below: the renamed tree keeps the token kinds, and the lexer gives the re-spelled
+name the identifier class of its new spelling — `relex_stable` —, so the text-level renaming yields
+this tree only if it keeps the lexical class, which the identity manager enforces.) -/
+theorem checker_equivariant (r : CRen) (Γ : Ctx) {e : Ast} (h : TreeOK r e) :
+    check (renCtx r Γ) (renAst r.ρ.f e) = renCheckRes r (check Γ e) :=
+  check_ren Γ h
+
+/-- the checker instance with the real `rename` is a lawful analysis of the generic machine (C07
+applies to it) and satisfies the equivariance law of `rename_iso_generic`; the renamed definition IS
+`TranslateRS` with any partial map that acts like `ρ` on the mentioned names -/
+theorem checker_analysis_equivariant (traitsOf : Skel → TraitEnv) :
+    Lawful (checkerR traitsOf) ∧
+    ∀ (q : CRenFor traitsOf) (f : String → Option String) (c : Cst CDef), GoodC q.r c →
+      (∀ n ∈ mentionsOf c.defn, (f n).getD n = q.r.ρ.f n) →
+      (checkerR traitsOf).rename f c.defn = c.defn.map (renAst q.r.ρ.f) :=
+  ⟨checkerR_lawful traitsOf, fun q f c hg h => (checkerEquivariance traitsOf).rename_eq q f c hg h⟩
+
+/-- **rename_iso_checker.** The isomorphism clause of C08 for ARBITRARY parsed definitions, at the
+level of the checker model: the generic schema machine with the type checker as the analysis
+(`checkerR traitsOf`; a definition is a parsed tree), a well-formed state with distinct aliases, a new
+name that is free and not mentioned as an unresolved name, and a renaming `r` of the checker that
+maps the old alias to the new one, moves no other name, under which `TraitsFor` is equivariant and
+which satisfies the side conditions `GoodC` for every constituent (`τ alias = ρ alias`; `TreeOK` for
+the body; every global name of the body at a visited position — true of the grammar's trees). After
+`SetAliasFor(u, new, substitute = true)`: the same dependency edges, and per constituent the same
+status, the typification and the declared argument types with the names renamed. -/
+theorem rename_iso_checker (traitsOf : Skel → TraitEnv) {st : St CDef CInfo} (h : WF (checkerR traitsOf) st)
+    (hd : AliasesDistinct st) {u : Nat} {c : Cst CDef} (hat : st.at u = some c) (new : String)
+    (hfree : ∀ x ∈ st.store, x.alias ≠ new)
+    (hproviso : ∀ x ∈ st.store, new ∈ mentionsOf x.defn → (findAliasL st.store new).isSome = true)
+    (r : CRen) (htr : ∀ sk, traitsOf (renSk r.ρ.f sk) = renTE r.τ (traitsOf sk))
+    (hg : ∀ x ∈ st.store, GoodC r x) (hold : r.ρ.f c.alias = new)
+    (hfix : ∀ n, n ≠ c.alias → n ≠ new → r.ρ.f n = n) :
+    (step (checkerR traitsOf) st (.setAlias u new true)).depEdges (checkerR traitsOf) =
+      st.depEdges (checkerR traitsOf) ∧
+    (step (checkerR traitsOf) st (.setAlias u new true)).report (checkerR traitsOf) =
+      (st.report (checkerR traitsOf)).map (fun p => (p.1, renCInfo r p.2)) :=
+  rename_iso_generic (checkerR_lawful traitsOf) (checkerEquivariance traitsOf) h hd hat new hfree hproviso
+    ⟨r, htr⟩ hg hold hfix
+
+/-- **substitute_iso_checker.** The same for `SubstitueAliases(map)` with a map that acts like the
+renaming `r` on the names of the schema. -/
+theorem substitute_iso_checker (traitsOf : Skel → TraitEnv) {st : St CDef CInfo} (h : WF (checkerR traitsOf) st)
+    (m : List (String × String)) (r : CRen) (htr : ∀ sk, traitsOf (renSk r.ρ.f sk) = renTE r.τ (traitsOf sk))
+    (hg : ∀ x ∈ st.store, GoodC r x)
+    (hagree : ∀ n ∈ namesOfG (checkerR traitsOf) st.store, r.ρ.f n = (Schema.lookup m n).getD n) :
+    (step (checkerR traitsOf) st (.substitute m)).depEdges (checkerR traitsOf) =
+      st.depEdges (checkerR traitsOf) ∧
+    (step (checkerR traitsOf) st (.substitute m)).report (checkerR traitsOf) =
+      (st.report (checkerR traitsOf)).map (fun p => (p.1, renCInfo r p.2)) :=
+  substitute_iso_generic (checkerR_lawful traitsOf) (checkerEquivariance traitsOf) h m ⟨r, htr⟩ hg hagree
+
+/-- **rename_iso_checker_plain.** `rename_iso_checker` with a renaming constructed: the transposition
+`old ↔ new` on tokens and base names, for two names that are neither `Z`, `R0` nor radicals, in a
+schema whose base sets are nominal (`baseTraits`). The side condition is the decidable `goodPlain`:
+in every definition, `old` / `new` are not the text of a radical token, not the name of a CALLED
+function, not the variable of an argument declaration, and every global name stands at a visited
+position. No assumption on the spelling of the other names. (Renaming a function that is called needs a
+`τ` that also rewrites the mangled radicals: `rename_iso_checker_names`.) -/
+theorem rename_iso_checker_plain {st : St CDef CInfo} (h : WF (checkerR baseTraits) st)
+    (hd : AliasesDistinct st) {u : Nat} {c : Cst CDef} (hat : st.at u = some c) (new : String)
+    (hp : PlainNames c.alias new) (hfree : ∀ x ∈ st.store, x.alias ≠ new)
+    (hproviso : ∀ x ∈ st.store, new ∈ mentionsOf x.defn → (findAliasL st.store new).isSome = true)
+    (hg : ∀ x ∈ st.store, goodPlain c.alias new x = true) :
+    (step (checkerR baseTraits) st (.setAlias u new true)).depEdges (checkerR baseTraits) =
+      st.depEdges (checkerR baseTraits) ∧
+    (step (checkerR baseTraits) st (.setAlias u new true)).report (checkerR baseTraits) =
+      (st.report (checkerR baseTraits)).map (fun p => (p.1, renCInfo (CRen.plain c.alias new hp) p.2)) :=
+  rename_iso_checker baseTraits h hd hat new hfree hproviso (CRen.plain c.alias new hp)
+    (plainRen c.alias new hp).traits (fun x hx => goodC_plain hp (hg x hx)) (swapName_left _ _)
+    (fun _ h1 h2 => swapName_other h1 h2)
+
+/-- `X1`, `X11` base sets; `D1:==X1\X1`; `D2:==X1\D9` (`D9` denotes nothing); `D3:==D2\X1` (mentions the
+failed `D2`); `D4:==X11\X11` -/
+def histRen : List (Op CDef) :=
+  [.insert ⟨1, "X1", .base, none⟩, .insert ⟨2, "X11", .base, none⟩,
+   .insert ⟨3, "D1", .term, some (setMinus (glob "X1") (glob "X1"))⟩,
+   .insert ⟨4, "D2", .term, some (setMinus (glob "X1") (glob "D9"))⟩,
+   .insert ⟨5, "D3", .term, some (setMinus (glob "D2") (glob "X1"))⟩,
+   .insert ⟨6, "D4", .term, some (setMinus (glob "X11") (glob "X11"))⟩]
+
+private theorem plainX1X2 : PlainNames "X1" "X2" := ⟨by decide, by decide, by decide, by decide, by decide, by decide⟩
+private theorem plainX1X11 : PlainNames "X1" "X11" := ⟨by decide, by decide, by decide, by decide, by decide, by decide⟩
+
+/-- the hypotheses of `rename_iso_checker_plain` hold for renaming `X1` to `X2` in `histRen` -/
+example :
+    let st := run (checkerR baseTraits) histRen
+    WF (checkerR baseTraits) st ∧ AliasesDistinct st ∧ st.at 1 = some ⟨1, "X1", .base, none⟩ ∧
+    (∀ x ∈ st.store, x.alias ≠ "X2") ∧
+    (∀ x ∈ st.store, "X2" ∈ mentionsOf x.defn → (findAliasL st.store "X2").isSome = true) ∧
+    (∀ x ∈ st.store, goodPlain "X1" "X2" x = true) :=
+  ⟨WF.run (checkerR_lawful _) ⟨trivial, trivial, trivial, trivial, trivial, trivial, trivial⟩,
+    by decide +kernel, by decide +kernel, by decide +kernel, by decide +kernel, by decide +kernel⟩
+
+/-- … and the conclusion, computed: `D1` is typed ℬ(X2) after the renaming, `D2` / `D3` stay incorrect,
+`X11` / `D4` are untouched (whole identifiers only), the edges are the old ones -/
+example :
+    let A := checkerR baseTraits
+    let st := run A histRen
+    (step A st (.setAlias 1 "X2" true)).report A =
+      [(1, { status := .verified, ty := some (.ty (.coll (.base "X2"))) }),
+       (2, { status := .verified, ty := some (.ty (.coll (.base "X11"))) }),
+       (3, { status := .verified, ty := some (.ty (.coll (.base "X2"))) }),
+       (4, { status := .incorrect }), (5, { status := .incorrect }),
+       (6, { status := .verified, ty := some (.ty (.coll (.base "X11"))) })] ∧
+    (step A st (.setAlias 1 "X2" true)).depEdges A = st.depEdges A ∧
+    st.depEdges A = [(1, 3), (1, 4), (1, 5), (4, 5), (2, 6)] := by
+  decide +kernel
+
+/-- the hypotheses of `substitute_iso_checker` for the simultaneous swap `X1 ↔ X11` on `histRen` -/
+example :
+    let st := run (checkerR baseTraits) histRen
+    (∀ x ∈ st.store, GoodC (CRen.plain "X1" "X11" plainX1X11) x) ∧
+    (∀ n ∈ namesOfG (checkerR baseTraits) st.store,
+      (CRen.plain "X1" "X11" plainX1X11).ρ.f n = (Schema.lookup [("X1", "X11"), ("X11", "X1")] n).getD n) :=
+  ⟨fun x hx => goodC_plain plainX1X11
+      ((by decide +kernel : ∀ x ∈ (run (checkerR baseTraits) histRen).store, goodPlain "X1" "X11" x = true) x hx),
+    by decide +kernel⟩
+
+/-- non-vacuity of `checker_equivariant`: the side conditions hold for the transposition `X1 ↔ X2` on
+`D1:==X1\X9` -/
+example : TreeOK (CRen.plain "X1" "X2" plainX1X2) (defTree "D1" (setMinus (glob "X1") (glob "X9"))) :=
+  treeOK_plain plainX1X2 _ (by decide +kernel)
+
+/-- **rename_iso_checker_names.** `rename_iso_checker` with a renaming constructed for EVERY constituent,
+called functions and predicates included: `old` and `new` are good names (`GoodName`: an upper-case
+letter followed by at least one symbol, none of them upper-case — what the identity manager issues —,
+not `R0` and not a radical); `ρ` is the transposition on the global tokens, `τ` the transposition
+applied to every block of a base name, so that the mangled radical `R1F1` of a call of `F1` becomes
+`R1F2` (`CRen.names`). Schema with nominal base sets (`baseTraitsN`). The side condition is the
+decidable `goodNames`: every alias is a single block; in every definition the text of a radical token
+is a single block other than the two names, the name of every called function is a global token and a
+well-formed name, a non-global declared name / the variable of an argument declaration is not one
+of the two names, and every global name stands at a visited position. -/
+theorem rename_iso_checker_names {st : St CDef CInfo} (h : WF (checkerR baseTraitsN) st)
+    (hd : AliasesDistinct st) {u : Nat} {c : Cst CDef} (hat : st.at u = some c) (new : String)
+    (ho : GoodName c.alias) (hn : GoodName new) (hfree : ∀ x ∈ st.store, x.alias ≠ new)
+    (hproviso : ∀ x ∈ st.store, new ∈ mentionsOf x.defn → (findAliasL st.store new).isSome = true)
+    (hg : ∀ x ∈ st.store, goodNames (swapName c.alias new) x = true) :
+    (step (checkerR baseTraitsN) st (.setAlias u new true)).depEdges (checkerR baseTraitsN) =
+      st.depEdges (checkerR baseTraitsN) ∧
+    (step (checkerR baseTraitsN) st (.setAlias u new true)).report (checkerR baseTraitsN) =
+      (st.report (checkerR baseTraitsN)).map (fun p => (p.1, renCInfo (CRen.names ho hn) p.2)) :=
+  rename_iso_checker baseTraitsN h hd hat new hfree hproviso (CRen.names ho hn)
+    (namesRen (NameBij.swap ho hn)).traits (fun x hx => goodC_names (NameBij.swap ho hn) (hg x hx))
+    (swapName_left _ _) (fun _ h1 h2 => swapName_other h1 h2)
+
+/-- **substitute_iso_checker_names.** `SubstitueAliases(map)` with the real checker as the analysis and
+the renaming CONSTRUCTED, for every simultaneous map (swaps, chains, the renumbering of `ResetAliases`,
+the maps of merge and equation): every name that occurs in the schema (aliases and mentions) and its
+image are good names, and the map is injective on them — the proviso. The renaming is the product of
+transpositions `NameBij.ofMap` (it acts like the map on the names of the schema), block-wise on the
+base names; side condition `goodNames` as in `rename_iso_checker_names`. -/
+theorem substitute_iso_checker_names {st : St CDef CInfo} (h : WF (checkerR baseTraitsN) st)
+    (m : List (String × String))
+    (hgood : ∀ n ∈ namesOfG (checkerR baseTraitsN) st.store,
+      GoodName n ∧ GoodName ((Schema.lookup m n).getD n))
+    (hinj : ∀ a ∈ namesOfG (checkerR baseTraitsN) st.store, ∀ b ∈ namesOfG (checkerR baseTraitsN) st.store,
+      (Schema.lookup m a).getD a = (Schema.lookup m b).getD b → a = b)
+    (hg : ∀ x ∈ st.store, goodNames (NameBij.ofMap (namesOfG (checkerR baseTraitsN) st.store)
+      (fun n => (Schema.lookup m n).getD n)).b.f x = true) :
+    (step (checkerR baseTraitsN) st (.substitute m)).depEdges (checkerR baseTraitsN) =
+      st.depEdges (checkerR baseTraitsN) ∧
+    (step (checkerR baseTraitsN) st (.substitute m)).report (checkerR baseTraitsN) =
+      (st.report (checkerR baseTraitsN)).map (fun p => (p.1, renCInfo (CRen.ofNameBij
+        (NameBij.ofMap (namesOfG (checkerR baseTraitsN) st.store) (fun n => (Schema.lookup m n).getD n))) p.2)) :=
+  substitute_iso_checker baseTraitsN h m _ (namesRen _).traits (fun x hx => goodC_names _ (hg x hx))
+    (NameBij.ofMap_spec _ _ hgood hinj)
+
+/-- `X1` base set; the templated function `F1:==[a∈ℬ(R1)] a\a`; `D1:==F1[X1]`; `D2:==F1[F1[X1]]` -/
+def histFun : List (Op CDef) :=
+  let loc (s : String) : Ast := .node .ID_LOCAL (.text s) 0 0 []
+  let call (f : String) (x : Ast) : Ast := .node .NT_FUNC_CALL .none 0 0 [.node .ID_FUNCTION (.text f) 0 0 [], x]
+  [.insert ⟨1, "X1", .base, none⟩,
+   .insert ⟨2, "F1", .term, some (.node .NT_FUNC_DEFINITION .none 0 0
+      [.node .NT_ARGUMENTS .none 0 0 [.node .NT_ARG_DECL .none 0 0
+        [loc "a", .node .BOOLEAN .none 0 0 [.node .ID_RADICAL (.text "R1") 0 0 []]]],
+       setMinus (loc "a") (loc "a")])⟩,
+   .insert ⟨3, "D1", .term, some (call "F1" (glob "X1"))⟩,
+   .insert ⟨4, "D2", .term, some (call "F1" (call "F1" (glob "X1")))⟩]
+
+/-- the hypotheses of `rename_iso_checker_names` hold for renaming the CALLED function `F1` to `F2` -/
+example :
+    let st := run (checkerR baseTraitsN) histFun
+    WF (checkerR baseTraitsN) st ∧ AliasesDistinct st ∧
+    (st.at 2).map (·.alias) = some "F1" ∧ GoodName "F1" ∧ GoodName "F2" ∧
+    (∀ x ∈ st.store, x.alias ≠ "F2") ∧
+    (∀ x ∈ st.store, "F2" ∈ mentionsOf x.defn → (findAliasL st.store "F2").isSome = true) ∧
+    (∀ x ∈ st.store, goodNames (swapName "F1" "F2") x = true) :=
+  ⟨WF.run (checkerR_lawful _) ⟨trivial, trivial, trivial, trivial, trivial⟩,
+    by decide +kernel, by decide +kernel, by decide +kernel, by decide +kernel, by decide +kernel,
+    by decide +kernel, by decide +kernel⟩
+
+/-- … and the conclusion, computed: the calls `F2[X1]`, `F2[F2[X1]]` are still typed ℬ(X1), the function
+keeps its templated typification ℬ(R1), the edges are the old ones -/
+example :
+    let A := checkerR baseTraitsN
+    let st := run A histFun
+    (step A st (.setAlias 2 "F2" true)).report A = st.report A ∧
+    (st.report A).map (fun p => (p.1, p.2.status, p.2.ty)) =
+      [(1, .verified, some (.ty (.coll (.base "X1")))), (2, .verified, some (.ty (.coll (.base "R1")))),
+       (3, .verified, some (.ty (.coll (.base "X1")))), (4, .verified, some (.ty (.coll (.base "X1"))))] ∧
+    (step A st (.setAlias 2 "F2" true)).depEdges A = st.depEdges A ∧
+    st.depEdges A = [(1, 3), (2, 3), (1, 4), (2, 4)] := by
+  decide +kernel
+
+/-- the hypotheses of `substitute_iso_checker_names` hold for the simultaneous map `X1 ↦ X2`, `F1 ↦ D1`,
+`D1 ↦ F1` (a chain through a free name and a swap that exchanges a function with a term) on `histFun` -/
+example :
+    let st := run (checkerR baseTraitsN) histFun
+    let m := [("X1", "X2"), ("F1", "D1"), ("D1", "F1")]
+    (∀ n ∈ namesOfG (checkerR baseTraitsN) st.store, GoodName n ∧ GoodName ((Schema.lookup m n).getD n)) ∧
+    (∀ a ∈ namesOfG (checkerR baseTraitsN) st.store, ∀ b ∈ namesOfG (checkerR baseTraitsN) st.store,
+      (Schema.lookup m a).getD a = (Schema.lookup m b).getD b → a = b) ∧
+    (∀ x ∈ st.store, goodNames (NameBij.ofMap (namesOfG (checkerR baseTraitsN) st.store)
+      (fun n => (Schema.lookup m n).getD n)).b.f x = true) := by
+  refine ⟨by decide +kernel, by decide +kernel, by decide +kernel⟩
+
+/-- **capture (checker).** With the real checker as the analysis the conclusion fails for EVERY renaming
+when the proviso fails: `X1` base set, `D1:==X1\X2` (incorrect: `X2` denotes nothing); renaming `X1` to
+the free alias `X2` gives `D1:==X2\X2`, verified with type ℬ(X2) — the status changes, which no
+renaming of the entries does. -/
+theorem rename_capture_checker_counterexample :
+    let A := checkerR baseTraits
+    let st := run A [.insert ⟨1, "X1", .base, none⟩,
+      .insert ⟨2, "D1", .term, some (setMinus (glob "X1") (glob "X2"))⟩]
+    WF A st ∧ AliasesDistinct st ∧ (∀ x ∈ st.store, x.alias ≠ "X2") ∧
+    ¬ (∀ x ∈ st.store, "X2" ∈ mentionsOf x.defn → (findAliasL st.store "X2").isSome = true) ∧
+    ∀ r : CRen, (step A st (.setAlias 1 "X2" true)).report A ≠
+      (st.report A).map (fun p => (p.1, renCInfo r p.2)) := by
+  refine ⟨WF.run (checkerR_lawful _) ⟨trivial, trivial, trivial⟩, by decide +kernel, by decide +kernel,
+    by decide +kernel, ?_⟩
+  intro r
+  have h1 : (step (checkerR baseTraits) (run (checkerR baseTraits) [.insert ⟨1, "X1", .base, none⟩,
+      .insert ⟨2, "D1", .term, some (setMinus (glob "X1") (glob "X2"))⟩]) (.setAlias 1 "X2" true)).report
+        (checkerR baseTraits) =
+      [(1, { status := .verified, ty := some (.ty (.coll (.base "X2"))) }),
+       (2, { status := .verified, ty := some (.ty (.coll (.base "X2"))) })] := by decide +kernel
+  have h2 : (run (checkerR baseTraits) [.insert ⟨1, "X1", .base, none⟩,
+      .insert ⟨2, "D1", .term, some (setMinus (glob "X1") (glob "X2"))⟩]).report (checkerR baseTraits) =
+      [(1, { status := .verified, ty := some (.ty (.coll (.base "X1"))) }), (2, { status := .incorrect })] := by
+    decide +kernel
+  rw [h1, h2]
+  intro he
+  have := congrArg (fun l => l.map (fun p => p.2.status)) he
+  simp [renCInfo] at this
+
+end CheckerLevel
 
 end CCVerif.C08
